@@ -195,4 +195,309 @@ theorem dewSum_lt {l₁ l₂ : List (α × α)} (h : StrictlyBelow l₁ l₂) (h
       simp only [zero_div, zero_add]
       exact this
 
+
+/-! ## facts about the model's own definitions and auxiliary lemmas for Props/C08
+(definitional unfoldings such as `solve_multi` / `solve_single` live here so that the obligation count of
+Props/C08 reflects statements of the property only) -/
+
+/-- What `solve` returns when at least two components are present. -/
+theorem solve_multi (v : Variant) (m : Method) (i : Input α) (n : Nat)
+    (h : countPos (i.comps.map (·.z)) = n + 2) :
+    solve v m i = .ok { value := i.ret,
+                        fracs := fnNormalize i.minimum (vec m (pairs v m i.comps i.P)),
+                        residual := residual m (pairs v m i.comps i.P), single := false } := by
+  simp [solve, h]
+
+/-- `fn.normalize` always returns fractions that sum to one (both of its branches). -/
+theorem fnNormalize_sum (minimum : α) (l : List α) (hmin : 0 < minimum) (hl : l ≠ []) :
+    (fnNormalize minimum l).sum = 1 := by
+  unfold fnNormalize
+  split
+  · rw [sum_replicate']
+    have : (l.length : α) ≠ 0 := by
+      have : l.length ≠ 0 := by simpa using hl
+      exact_mod_cast this
+    field_simp
+  · rename_i hge
+    have hpos : 0 < l.sum := lt_of_lt_of_le hmin (not_lt.mp hge)
+    rw [sum_map_div']
+    exact div_self hpos.ne'
+
+theorem entryZ_fixed (m : Method) (z : List α) : entryZ .fixed m z = normalizeZ z := by
+  cases m <;> rfl
+
+theorem normalizeZ_scale (k : α) (hk : k ≠ 0) (z : List α) :
+    normalizeZ (z.map (k * ·)) = normalizeZ z := by
+  unfold normalizeZ
+  rw [sum_map_mul_left', List.map_map]
+  apply List.map_congr_left
+  intro a _
+  simp only [Function.comp]
+  rw [mul_div_mul_left _ _ hk]
+
+theorem countPos_scale (k : α) (hk : 0 < k) (z : List α) :
+    countPos (z.map (k * ·)) = countPos z := by
+  unfold countPos
+  rw [List.filter_map, List.length_map]
+  congr 1
+  apply List.filter_congr
+  intro a _
+  simp [Function.comp, mul_pos_iff_of_pos_left hk]
+
+theorem pairs_fixed_eq_map (m : Method) (comps : List (Comp α)) (P : α) :
+    pairs .fixed m comps P = comps.map (fun c => (c.z / (comps.map (·.z)).sum, c.K P)) := by
+  unfold pairs
+  rw [entryZ_fixed]
+  unfold normalizeZ
+  rw [List.map_map, List.zip_map']
+  rfl
+
+theorem vec_fixed_eq_map (m : Method) (comps : List (Comp α)) (P : α) :
+    vec m (pairs .fixed m comps P) =
+      comps.map (fun c => if m.isBubble then c.z / (comps.map (·.z)).sum * c.K P
+                          else c.z / (comps.map (·.z)).sum / c.K P) := by
+  rw [pairs_fixed_eq_map]
+  cases m <;> simp [vec, Method.isBubble, bubbleVec, dewVec, List.map_map, Function.comp]
+
+/-- What `solve` returns when exactly one component is present (definitional: unfolds `solve`). -/
+theorem solve_single (v : Variant) (m : Method) (i : Input α)
+    (h : countPos (i.comps.map (·.z)) = 1) :
+    solve v m i = .ok { value := if i.critSpec < i.spec then i.critRet else i.sat,
+                        fracs := fnNormalize i.minimum (i.comps.map (·.z)),
+                        residual := if i.critSpec < i.spec then 0 else residual m (pairs .fixed m i.comps i.P),
+                        single := true } := by
+  simp [solve, h]
+
+theorem sum_zero_of_all_zero (l : List (Comp α)) (f : Comp α → α) (h : ∀ c ∈ l, f c = 0) :
+    (l.map f).sum = 0 := by
+  induction l with
+  | nil => simp
+  | cons c t ih =>
+    simp only [List.map_cons, List.sum_cons]
+    rw [h c (by simp), ih (fun c hc => h c (by simp [hc]))]
+    simp
+
+/-- K-values at pressure `P` from P-independent `κ`: `K_i = κ_i / P`. -/
+def atP (zk : List (α × α)) (P : α) : List (α × α) := zk.map (fun p => (p.1, p.2 / P))
+
+theorem bubbleSum_atP (zk : List (α × α)) (P : α) : bubbleSum (atP zk P) = bubbleSum zk / P := by
+  induction zk with
+  | nil => simp [atP, bubbleSum, bubbleVec]
+  | cons p t ih =>
+    have : atP (p :: t) P = (p.1, p.2 / P) :: atP t P := rfl
+    rw [this, bubbleSum_cons, bubbleSum_cons, ih]; ring
+
+theorem dewSum_atP (zk : List (α × α)) (P : α) : dewSum (atP zk P) = dewSum zk * P := by
+  induction zk with
+  | nil => simp [atP, dewSum, dewVec]
+  | cons p t ih =>
+    have : atP (p :: t) P = (p.1, p.2 / P) :: atP t P := rfl
+    rw [this, dewSum_cons, dewSum_cons, ih]
+    simp only [div_div_eq_mul_div]; ring
+
+/-- A system: amounts `z_i` and K-values as functions of temperature (at the given
+pressure), `K_i(T) = γ_i·pcf_i·Psat_i(T) / (φ_i·P)`. -/
+def atT (sys : List (α × (α → α))) (T : α) : List (α × α) := sys.map (fun p => (p.1, p.2 T))
+
+/-- non-negative amounts; every `K_i` positive and strictly increasing in `T` -/
+def Regular (sys : List (α × (α → α))) : Prop :=
+  ∀ p ∈ sys, 0 ≤ p.1 ∧ (∀ T, 0 < p.2 T) ∧ StrictMono p.2
+
+theorem regular_admissible (sys : List (α × (α → α))) (h : Regular sys) (T : α) :
+    Admissible (atT sys T) := by
+  intro q hq
+  simp only [atT, List.mem_map] at hq
+  obtain ⟨p, hp, rfl⟩ := hq
+  exact ⟨(h p hp).1, (h p hp).2.1 T⟩
+
+theorem weightSum_atT (sys : List (α × (α → α))) (T : α) :
+    weightSum (atT sys T) = (sys.map (·.1)).sum := by
+  unfold weightSum atT
+  rw [List.map_map]
+  rfl
+
+theorem strictlyBelow_atT (sys : List (α × (α → α))) (h : Regular sys) {T₁ T₂ : α} (hT : T₁ < T₂) :
+    StrictlyBelow (atT sys T₁) (atT sys T₂) := by
+  induction sys with
+  | nil => exact List.Forall₂.nil
+  | cons p t ih =>
+    refine List.Forall₂.cons ⟨rfl, (h p (by simp)).2.2 hT⟩ (ih ?_)
+    intro q hq; exact h q (by simp [hq])
+
+/-- entries form a one-to-one relation between keys and ids, ids below the size -/
+def CacheGood (c : Cache) : Prop :=
+  (∀ e₁ ∈ c.entries, ∀ e₂ ∈ c.entries, (e₁.1 = e₂.1 ↔ e₁.2 = e₂.2)) ∧
+  (∀ e ∈ c.entries, e.2 < c.entries.length)
+
+theorem find_some_mem (c : Cache) (k : Key) (id : Nat) (h : c.find k = some id) :
+    (k, id) ∈ c.entries := by
+  unfold Cache.find at h
+  cases hf : c.entries.find? (fun e => e.1 == k) with
+  | none => simp [hf] at h
+  | some e =>
+    simp [hf] at h
+    have hm := List.mem_of_find?_eq_some hf
+    have hk := List.find?_some hf
+    simp at hk
+    rw [← h, ← hk]; exact hm
+
+theorem find_none_not_mem (c : Cache) (k : Key) (h : c.find k = none) :
+    ∀ e ∈ c.entries, e.1 ≠ k := by
+  unfold Cache.find at h
+  simp at h
+  intro e he hk
+  exact h e.1 e.2 he hk
+
+theorem get_spec (c : Cache) (k : Key) (hg : CacheGood c) :
+    CacheGood (c.get k).1 ∧ (∀ e ∈ c.entries, e ∈ (c.get k).1.entries) ∧
+    (k, (c.get k).2) ∈ (c.get k).1.entries := by
+  unfold Cache.get
+  cases hf : c.find k with
+  | some id => exact ⟨hg, fun e he => he, find_some_mem c k id hf⟩
+  | none =>
+    have hn := find_none_not_mem c k hf
+    obtain ⟨h1, h2⟩ := hg
+    refine ⟨⟨?_, ?_⟩, ?_, ?_⟩
+    · intro e₁ he₁ e₂ he₂
+      simp only [List.mem_append, List.mem_singleton] at he₁ he₂
+      rcases he₁ with he₁ | rfl <;> rcases he₂ with he₂ | rfl
+      · exact h1 e₁ he₁ e₂ he₂
+      · constructor
+        · intro hk; exact absurd hk (hn e₁ he₁)
+        · intro hi; have := h2 e₁ he₁; simp at hi; omega
+      · constructor
+        · intro hk; exact absurd hk.symm (hn e₂ he₂)
+        · intro hi; have := h2 e₂ he₂; simp at hi; omega
+      · simp
+    · intro e he
+      simp only [List.mem_append, List.mem_singleton, List.length_append, List.length_singleton] at he ⊢
+      rcases he with he | rfl
+      · have := h2 e he; omega
+      · simp
+    · intro e he; simp [he]
+    · simp
+
+theorem run_spec (ks : List Key) : ∀ (c : Cache), CacheGood c →
+    CacheGood (c.run ks).1 ∧ (∀ e ∈ c.entries, e ∈ (c.run ks).1.entries) ∧
+    (c.run ks).2.length = ks.length ∧
+    ∀ j (hj : j < ks.length) (hj' : j < (c.run ks).2.length),
+      (ks[j], (c.run ks).2[j]) ∈ (c.run ks).1.entries := by
+  induction ks with
+  | nil => intro c hg; simp [Cache.run, hg]
+  | cons k t ih =>
+    intro c hg
+    obtain ⟨g1, s1, m1⟩ := get_spec c k hg
+    obtain ⟨g2, s2, l2, m2⟩ := ih (c.get k).1 g1
+    simp only [Cache.run]
+    refine ⟨g2, fun e he => s2 e (s1 e he), by simp [l2], ?_⟩
+    intro j hj hj'
+    cases j with
+    | zero => simpa using s2 _ m1
+    | succ j =>
+      simp only [List.getElem_cons_succ]
+      exact m2 j (by simpa using hj) (by simpa using hj')
+
+/-- `Regular` (hypothesis of `bubble_le_dew_T`, `TP_inverse_*`) is satisfiable: a positive,
+strictly increasing function on the whole of an ordered field is
+`T ↦ c·(if T < 0 then 1/(1 − T) else 1 + T)`. -/
+def kfun (c : ℚ) (T : ℚ) : ℚ := c * (if T < 0 then 1 / (1 - T) else 1 + T)
+
+theorem kfun_pos (c : ℚ) (hc : 0 < c) (T : ℚ) : 0 < kfun c T := by
+  unfold kfun
+  split
+  · rename_i h; have : 0 < 1 - T := by linarith
+    positivity
+  · rename_i h; have : 0 ≤ T := not_lt.mp h
+    positivity
+
+theorem kfun_strictMono (c : ℚ) (hc : 0 < c) : StrictMono (kfun c) := by
+  intro a b hab
+  unfold kfun
+  apply mul_lt_mul_of_pos_left _ hc
+  by_cases ha : a < 0 <;> by_cases hb : b < 0
+  · simp only [ha, hb, if_true]
+    have h1 : 0 < 1 - a := by linarith
+    have h2 : 0 < 1 - b := by linarith
+    exact one_div_lt_one_div_of_lt h2 (by linarith)
+  · simp only [ha, hb, if_true, if_false]
+    have h1 : 1 < 1 - a := by linarith
+    have hb' : 0 ≤ b := not_lt.mp hb
+    have : 1 / (1 - a) < 1 := by rw [div_lt_one (by linarith)]; exact h1
+    linarith
+  · exact absurd (lt_trans hab hb) ha
+  · simp only [ha, hb, if_false]; linarith
+
+theorem countPos_single (pre post : List (Comp α)) (c : Comp α) (hz : 0 < c.z)
+    (hpre : ∀ d ∈ pre, d.z = 0) (hpost : ∀ d ∈ post, d.z = 0) :
+    countPos ((pre ++ c :: post).map (·.z)) = 1 := by
+  unfold countPos
+  have h1 : (pre.map (·.z)).filter (fun x => decide (0 < x)) = [] := by
+    rw [List.filter_eq_nil_iff]
+    intro x hx
+    simp only [List.mem_map] at hx
+    obtain ⟨d, hd, rfl⟩ := hx
+    simp [hpre d hd]
+  have h2 : (post.map (·.z)).filter (fun x => decide (0 < x)) = [] := by
+    rw [List.filter_eq_nil_iff]
+    intro x hx
+    simp only [List.mem_map] at hx
+    obtain ⟨d, hd, rfl⟩ := hx
+    simp [hpost d hd]
+  simp [List.filter_append, h1, h2, hz]
+
+/-- the composition that enters the residual, at system level: weights divided by their total -/
+def normSys (sys : List (α × (α → α))) : List (α × (α → α)) :=
+  sys.map (fun p => (p.1 / (sys.map (·.1)).sum, p.2))
+
+/-- `z ↦ k·z` at system level -/
+def scaleSys (k : α) (sys : List (α × (α → α))) : List (α × (α → α)) :=
+  sys.map (fun p => (k * p.1, p.2))
+
+theorem weights_scaleSys (k : α) (sys : List (α × (α → α))) :
+    ((scaleSys k sys).map (·.1)).sum = k * (sys.map (·.1)).sum := by
+  have := sum_map_mul_left' k (sys.map (·.1))
+  rw [List.map_map] at this
+  rw [← this]
+  simp only [scaleSys, List.map_map]
+  rfl
+
+theorem normSys_scale (k : α) (hk : k ≠ 0) (sys : List (α × (α → α))) :
+    normSys (scaleSys k sys) = normSys sys := by
+  unfold normSys
+  rw [weights_scaleSys]
+  simp only [scaleSys, List.map_map]
+  apply List.map_congr_left
+  intro p _
+  simp only [Function.comp]
+  rw [mul_div_mul_left _ _ hk]
+
+theorem weights_normSys (sys : List (α × (α → α))) (hs : (sys.map (·.1)).sum ≠ 0) :
+    ((normSys sys).map (·.1)).sum = 1 := by
+  have := sum_map_div' (sys.map (·.1)).sum (sys.map (·.1))
+  rw [List.map_map] at this
+  simp only [normSys, List.map_map]
+  rw [show ((fun x : α × (α → α) => x.1) ∘ fun p : α × (α → α) => (p.1 / (sys.map (·.1)).sum, p.2))
+        = ((fun x => x / (sys.map (·.1)).sum) ∘ fun x : α × (α → α) => x.1) from rfl, this]
+  exact div_self hs
+
+theorem regular_normSys (sys : List (α × (α → α))) (h : Regular sys) (hs : 0 < (sys.map (·.1)).sum) :
+    Regular (normSys sys) := by
+  intro q hq
+  simp only [normSys, List.mem_map] at hq
+  obtain ⟨p, hp, rfl⟩ := hq
+  exact ⟨div_nonneg (h p hp).1 hs.le, (h p hp).2.1, (h p hp).2.2⟩
+
+theorem atT_normSys_perm {sys sys' : List (α × (α → α))} (hp : sys.Perm sys') (T : α) :
+    (atT (normSys sys) T).Perm (atT (normSys sys') T) := by
+  have hs : (sys'.map (·.1)).sum = (sys.map (·.1)).sum := (perm_sum (hp.map _)).symm
+  unfold atT normSys
+  rw [hs]
+  exact (hp.map _).map _
+
+theorem bubbleSum_perm {l₁ l₂ : List (α × α)} (h : l₁.Perm l₂) : bubbleSum l₁ = bubbleSum l₂ :=
+  perm_sum (h.map _)
+
+theorem dewSum_perm {l₁ l₂ : List (α × α)} (h : l₁.Perm l₂) : dewSum l₁ = dewSum l₂ :=
+  perm_sum (h.map _)
+
 end ThermoVerif.BubbleDew
